@@ -116,7 +116,7 @@ def run_case(case, asan=True, timeout=60):
         elif p[0] == 'TRAP':
             extra['trap'] = int(p[1])
     err = r.stderr.decode(errors='replace')
-    extra['stderr'] = err[-1500:]
+    extra['stderr'] = cexec.san_head(err, 1500)
     if r.returncode == 66 or 'VSCHED-DEADLOCK' in err:
         return 'deadlock', events, extra
     if r.returncode == 65:
